@@ -174,6 +174,9 @@ def r2(ctx):
     fex2 = mac.extract(c, ff)
     bt = strip(strip(pad_b["init"])["args"][1])
     ft = strip(strip(fpads[0].get("init") or fpads[0].get("r"))["args"][1])
+    from ..hir import resolve as _res, let_table as _lt
+    bt = _res(bt, _lt(bf["body"]))      # `pad3d(&x, padded)` with `let padded = (ph, pw)`
+    ft = _res(ft, _lt(ff["body"]))
     bv = [e1.Norm(c, bex.env).norm(x) for x in bt["xs"]]
     fv = [e1.Norm(c, fex2.env).norm(x) for x in ft["xs"]]
 
@@ -362,6 +365,12 @@ def r6(ctx):
         src_ok = len(itl) == 1 and itl[0][1].replace(" ", "") == want.replace(" ", "")
         same_c = str(s.target.idx[0]) == str(r.idx[0])
         tgt_from_iter = all("#" in str(i) and str(i) not in [str(j) for j in r.idx] for i in s.target.idx[1:])
+        if not tgt_from_iter and len(itl) == 1:
+            # `for position in max[c][h][w].iter() { plane[position.0][position.1] += .. }`: the two components of the iterated pair, in order
+            srcs = getattr(ex, "iter_sources", {}).get(itl[0][0][1])
+            pnames = list(srcs[2]) if srcs and len(srcs) > 2 else []
+            if len(pnames) == 1:
+                tgt_from_iter = [str(i) for i in s.target.idx[1:]] == ["%s.0" % pnames[0], "%s.1" % pnames[0]]
         ok = src_ok and same_c and tgt_from_iter and str(s.rhs) in s.reads
     ctx.check("R01.6", "routes-to-recorded-argmax", ok, "routing:" + short(repr(s), 100), where,
               "igradient[c][mh][mw] += ogradient[c][h][w], (mh, mw) in max[c][h][w]", "found %s" % short(repr(s), 200))
@@ -529,6 +538,8 @@ def r3_kernel_helpers(ctx):
                     cnt, src = elem_src[n["hid"]]
                     out.append(cnt)
                     n = strip(src)
+                elif n.get("k") == "local" and n["hid"] in TT2 and strip(TT2[n["hid"]]).get("k") in ("index", "local", "field"):
+                    n = strip(TT2[n["hid"]])          # `let source = &kernels[f];`
                 else:
                     break
             return list(reversed(out)), n
